@@ -246,6 +246,14 @@ func (sp *Specs) parseFile(f *ast.File, fset *token.FileSet, pkgPath string) {
 				}
 				cur.Options["assumepre:"+fs[0]] = reason
 			}
+		case "forget":
+			// forget <callee>.<label> ...: postconditions of a callee this caller's argument does not need; they are not
+			// assumed at its call sites (dropping a hypothesis is always sound; it keeps non-linear clauses out of queries)
+			if cur != nil {
+				for _, f := range strings.Fields(rest) {
+					cur.Options["forget:"+f] = "1"
+				}
+			}
 		case "assumes":
 			if cur == nil {
 				sp.errf(l.file, l.line, "assumes outside func")
